@@ -57,6 +57,15 @@ theorem C38_retained_all_histories (caps : Caps) (ops : List Op) :
     (run (init caps) ops).info.retained = (run (init caps) ops).rmsgs.length :=
   CountedRetained_run caps ops
 
+/-- … which is also the size of the index's retained store (`Topics.Retained.Len()`, the number Go stores into
+    `Info.Retained`, server.go:1012 and 1775): the two stores have the same topics -/
+theorem C38_retained_index_all_histories (caps : Caps) (ops : List Op) :
+    (run (init caps) ops).info.retained = (run (init caps) ops).topics.retained.length := by
+  rw [C38_retained_all_histories]
+  have := congrArg List.length (RetKeys_run caps ops)
+  simp only [List.length_map] at this
+  rw [this]
+
 /-- **subscriptions**: after EVERY history the reported number of subscriptions is the number of (client, filter)
     entries — plain and shared — of the topic index, and the index is well-formed -/
 theorem C38_subs_all_histories (caps : Caps) (ops : List Op) :
